@@ -197,6 +197,9 @@ func (eval Evaluator) Add(op0 *rlwe.Ciphertext, op1 rlwe.Operand, opOut *rlwe.Ci
 
 	case *big.Int:
 
+		// The operand belongs to the caller: work on a copy.
+		scalar := new(big.Int).Set(op1)
+
 		_, level, err := eval.InitOutputUnaryOp(op0.El(), opOut.El())
 		if err != nil {
 			return fmt.Errorf("cannot Add: %w", err)
@@ -206,20 +209,20 @@ func (eval Evaluator) Add(op0 *rlwe.Ciphertext, op1 rlwe.Operand, opOut *rlwe.Ci
 
 		TBig := eval.parameters.RingT().ModulusAtLevel[0]
 
-		// Sets op1 to the scale of op0
-		op1.Mul(op1, new(big.Int).SetUint64(op0.Scale.Uint64()))
+		// Sets scalar to the scale of op0
+		scalar.Mul(scalar, new(big.Int).SetUint64(op0.Scale.Uint64()))
 
-		op1.Mod(op1, TBig)
+		scalar.Mod(scalar, TBig)
 
-		// If op1 > T/2 -> op1 -= T
-		if op1.Cmp(new(big.Int).Rsh(TBig, 1)) == 1 {
-			op1.Sub(op1, TBig)
+		// If scalar > T/2 -> scalar -= T
+		if scalar.Cmp(new(big.Int).Rsh(TBig, 1)) == 1 {
+			scalar.Sub(scalar, TBig)
 		}
 
 		// Scales op0 by T^{-1} mod Q
-		op1.Mul(op1, eval.tInvModQ[level])
+		scalar.Mul(scalar, eval.tInvModQ[level])
 
-		ringQ.AtLevel(level).AddScalarBigint(op0.Value[0], op1, opOut.Value[0])
+		ringQ.AtLevel(level).AddScalarBigint(op0.Value[0], scalar, opOut.Value[0])
 
 		if op0 != opOut {
 			for i := 1; i < op0.Degree()+1; i++ {
@@ -481,6 +484,9 @@ func (eval Evaluator) Mul(op0 *rlwe.Ciphertext, op1 rlwe.Operand, opOut *rlwe.Ci
 
 	case *big.Int:
 
+		// The operand belongs to the caller: work on a copy.
+		scalar := new(big.Int).Set(op1)
+
 		_, level, err := eval.InitOutputUnaryOp(op0.El(), opOut.El())
 		if err != nil {
 			return fmt.Errorf("cannot Mul: %w", err)
@@ -492,15 +498,15 @@ func (eval Evaluator) Mul(op0 *rlwe.Ciphertext, op1 rlwe.Operand, opOut *rlwe.Ci
 
 		TBig := eval.parameters.RingT().ModulusAtLevel[0]
 
-		op1.Mod(op1, TBig)
+		scalar.Mod(scalar, TBig)
 
-		// If op1 > T/2 then subtract T to minimize the noise
-		if op1.Cmp(new(big.Int).Rsh(TBig, 1)) == 1 {
-			op1.Sub(op1, TBig)
+		// If scalar > T/2 then subtract T to minimize the noise
+		if scalar.Cmp(new(big.Int).Rsh(TBig, 1)) == 1 {
+			scalar.Sub(scalar, TBig)
 		}
 
 		for i := 0; i < op0.Degree()+1; i++ {
-			ringQ.MulScalarBigint(op0.Value[i], op1, opOut.Value[i])
+			ringQ.MulScalarBigint(op0.Value[i], scalar, opOut.Value[i])
 		}
 
 	case uint64:
@@ -1162,6 +1168,9 @@ func (eval Evaluator) MulThenAdd(op0 *rlwe.Ciphertext, op1 rlwe.Operand, opOut *
 
 	case *big.Int:
 
+		// The operand belongs to the caller: work on a copy.
+		scalar := new(big.Int).Set(op1)
+
 		_, level, err := eval.InitOutputUnaryOp(op0.El(), opOut.El())
 
 		if err != nil {
@@ -1174,24 +1183,24 @@ func (eval Evaluator) MulThenAdd(op0 *rlwe.Ciphertext, op1 rlwe.Operand, opOut *
 
 		s := eval.parameters.RingT().SubRings[0]
 
-		// op1 *= (op1.Scale / opOut.Scale)
+		// scalar *= (scalar.Scale / opOut.Scale)
 		if op0.Scale.Cmp(opOut.Scale) != 0 {
 			ratio := ring.ModExp(op0.Scale.Uint64(), s.Modulus-2, s.Modulus)
 			ratio = ring.BRed(ratio, opOut.Scale.Uint64(), s.Modulus, s.BRedConstant)
-			op1.Mul(op1, new(big.Int).SetUint64(ratio))
+			scalar.Mul(scalar, new(big.Int).SetUint64(ratio))
 		}
 
 		TBig := eval.parameters.RingT().ModulusAtLevel[0]
 
-		op1.Mod(op1, TBig)
+		scalar.Mod(scalar, TBig)
 
-		// If op1 > T/2 then subtract T to minimize the noise
-		if op1.Cmp(new(big.Int).Rsh(TBig, 1)) == 1 {
-			op1.Sub(op1, TBig)
+		// If scalar > T/2 then subtract T to minimize the noise
+		if scalar.Cmp(new(big.Int).Rsh(TBig, 1)) == 1 {
+			scalar.Sub(scalar, TBig)
 		}
 
 		for i := 0; i < op0.Degree()+1; i++ {
-			ringQ.MulScalarBigintThenAdd(op0.Value[i], op1, opOut.Value[i])
+			ringQ.MulScalarBigintThenAdd(op0.Value[i], scalar, opOut.Value[i])
 		}
 
 	case int:
